@@ -222,9 +222,7 @@ def handleC18 (op : String) (args : List Sexp) : Option Ans :=
     let s ← toJStr? s
     let a ← nameValid k s
     let b ← nameSpec k s
-    -- proved domain of `valid_arr_doc_partial` / `valid_class_doc_partial` (`ArrNameDomain`)
-    pure (if (k == "arr" || k == "class") && s.head? == some 91 && !isArrayDesc s then oodT
-      else if a == b then passT else failT k)
+    pure (if a == b then passT else failT k)
   | "oracle-join-split", [p, i] => do
     let p ← toJStr? p; let i ← toJStr? i
     pure (if !validObj p || !validUnqualified i || i.contains 36 then oodT else
@@ -233,8 +231,10 @@ def handleC18 (op : String) (args : List Sexp) : Option Ans :=
       else if InnerNames.split j == some (p, i) then passT else failT "differs")
   | "oracle-dimension", [s] => do
     let s ← toJStr? s
-    pure (if !isArrayDesc s || !validArr s then oodT else
-      if dimension s == some (s.takeWhile (· == 91)).length then passT else failT "dimension")
+    -- `dimension_total`: on every valid `ArrClassName`, no panic and the number of leading `[`
+    pure (if !validArr s then oodT
+      else if !isArrayDesc s then failT "valid_not_desc"
+      else if dimension s == some (s.takeWhile (· == 91)).length then passT else failT "dimension")
   | "oracle-from-class", [s] => do
     let s ← toJStr? s
     pure (if !validClass s then oodT
